@@ -144,7 +144,9 @@ class MiniEval:
       elif isinstance(st, ast.Return):
         raise _Return(self.ev(st.value, env, f, depth) if st.value is not None else None)
       elif isinstance(st, ast.Raise):
-        raise Raised()
+        # the class of an explicit raise is kept (args[0]); every other Raised() stands for an error of the evaluation itself
+        ex_ = st.exc.func if isinstance(st.exc, ast.Call) else st.exc
+        raise Raised(ex_.id if isinstance(ex_, ast.Name) else (ex_.attr if isinstance(ex_, ast.Attribute) else "?"))
       elif isinstance(st, ast.Assert):
         try:
           if not self.ev(st.test, env, f, depth):
